@@ -496,6 +496,12 @@ def check(ctx):
     # a type text the harvester takes apart wrongly yields no name: the type is referenced but never declared (shared with C07-D4 / C09-D4)
     from c07 import check_type_text_splitting
     check_type_text_splitting(P, r4)
+    # names harvested from a field ahead of its assignment are the placeholder's, not the extracted values' (shared with C07-D1)
+    from c07 import check_stale_harvest_reads
+    check_stale_harvest_reads(P, r4, P.reachable(ENTRY_POINTS))
+    # the payload type of `emit("e", v)` with `let v = Type::ctor(..)` is the leading path segment (shared with C12-D7)
+    from c12 import check_init_type_selector
+    check_init_type_selector(P, r4)
     for v in r4.violations:
         v.rule = r4.id
     r4.require_floor(2, "insertions into the declared set")
@@ -560,6 +566,7 @@ def check(ctx):
             r6.bad(V(r6.id, "%s::%s" % (fn.owner, fn.name), "unregistered-template:%s" % tpl, "render(\"%s\") names a template that is not registered" % tpl))
             continue
         n_paths += check_template_vars(r6, tpl, ast, set(keys), ktypes, ser_fields, elem_struct, fn, T)
+        check_import_guards(r6, tpl, ast, keys, fn, S.fns)
     r6.samples.append("%d render sites, %d variable paths resolved" % (len(render_sites), n_paths))
     r6.require_floor(60, "template variable paths")
     rules.append(r6)
@@ -578,6 +585,80 @@ def lit_text(e):
     if e and e.get("k") == "lit" and e["lit"]["t"] in ("str", "char"):
         return e["lit"]["v"]
     return None
+
+
+def check_import_guards(rule, tpl, ast, keys, fn, S_all=()):
+    """`{% if G %}import type { Channel } ..{% endif %}`: the file mentions `Channel<..>` once per channel of each command, so the flag G handed in by
+    the generator must be the existential "some command has a channel".  Decided on the value expression of the key: it reads the `channels`
+    of the commands and combines them with an existential adapter; a universal one (`all`), or an expression that does not look at the channels,
+    drops the import from files that use the name."""
+    from srclib import walk as _walk, walk_block as _wb, pat_bindings as _pb, expr_text as _et, tera_expr_idents
+    guards = []
+    for node in ast:
+        if node.get("k") != "if":
+            continue
+        for c in node["conds"]:
+            ids = tera_expr_idents(c["cond"])
+            txt = "".join(n_.get("v", "") for n_ in c["body"] if n_.get("k") == "text")
+            if len(ids) == 1 and re.search(r"\bimport\b[^;]*\bChannel\b", txt):
+                guards.append(ids[0])
+    for g in guards:
+        kv = keys.get(g)
+        if kv is None or kv.ast is None:
+            continue            # (dangling names are reported by the variable-typing rule)
+        ex = kv.ast
+        vfn = kv.fn or fn
+        hops = 0
+        unknown = False
+        while hops < 6:
+            hops += 1
+            while ex.get("k") in ("ref", "paren") and isinstance(ex.get("expr"), dict):
+                ex = ex["expr"]
+            if ex.get("k") == "path" and len(ex.get("segs", [])) == 1:
+                nm = ex["segs"][0]
+                init = None
+                for st in vfn.body or []:
+                    if isinstance(st, dict) and st.get("k") == "let" and st.get("init") is not None and nm in _pb(st["pat"]):
+                        init = st["init"]
+                if init is None:
+                    # a parameter: the value the (single) caller hands in
+                    ps = [p_ for p_ in vfn.sig.get("params", [])]
+                    pos = [i_ for i_, p_ in enumerate(ps) if (p_.get("pat") or {}).get("name") == nm]
+                    has_self = bool(ps and ps[0].get("self"))
+                    sites_ = []
+                    if pos:
+                        for g_ in S_all:
+                            for x in (_wb(g_.body) if g_.body is not None else []):
+                                if x.get("k") == "mcall" and x["method"] == vfn.name and has_self and len(x["args"]) == len(ps) - 1:
+                                    sites_.append((g_, x["args"][pos[0] - 1]))
+                                elif x.get("k") == "call" and _et(x["func"]).split("::")[-1].strip() == vfn.name and len(x["args"]) in (len(ps), len(ps) - (1 if has_self else 0)):
+                                    sites_.append((g_, x["args"][pos[0] - (len(ps) - len(x["args"]))]))
+                    if len(sites_) == 1:
+                        vfn, ex = sites_[0]
+                        continue
+                    unknown = True
+                    break
+                ex = init
+                continue
+            break
+        if unknown:
+            rule.ok(None)       # handed in from more than one place / not a local: not followed
+            continue
+        methods = [x["method"] for x in _walk(ex) if x.get("k") == "mcall"]
+        reads_channels = any(x.get("k") == "field" and x.get("member") == "channels" for x in _walk(ex))
+        where = "%s::%s" % (vfn.owner, vfn.name)
+        if "all" in methods and not any(m_ in methods for m_ in ("any", "find", "position", "flat_map", "filter", "sum", "count")):
+            rule.bad(V(rule.id, where, "import-guard-universal:%s:%s" % (tpl, g), "`%s` (guard of the Channel import in %s) is computed with `all`: the import is "
+                       "dropped as soon as one command has no channel, while the file still mentions Channel<..> for the others" % (g, tpl)))
+        elif not reads_channels and ex.get("k") in ("lit", "path", "mcall", "call", "binary", "unary") and not any(m_ in methods for m_ in ("any", "find", "position", "flat_map", "filter")):
+            helper = [x for x in _walk(ex) if x.get("k") in ("call", "mcall")]
+            if helper and ex.get("k") in ("call", "mcall") and not methods[:-1]:
+                rule.ok(None)   # a helper computes it: not followed here
+            else:
+                rule.bad(V(rule.id, where, "import-guard-ignores-channels:%s:%s" % (tpl, g), "`%s` (guard of the Channel import in %s) is computed as `%s`, which does not "
+                           "look at the commands' channels" % (g, tpl, _et(ex)[:80])))
+        else:
+            rule.ok("%s: the Channel import of %s is guarded by `%s` = %s (existential over the commands' channels)" % (where, tpl, g, _et(ex)[:70]))
 
 
 from tpltypes import collect_renders     # noqa: E402  (one implementation of "which keys are in the context at this render call")
